@@ -287,10 +287,15 @@ def check_pair(ctx, a, b, extra=None):
         case.update(extra)
     t0 = time.time()
     try:
-        d = L.watched(lambda: relativedelta(a, b), WATCHDOG_S)
+        try:
+            d = L.watched(lambda: relativedelta(a, b), WATCHDOG_S)
+        except L.Hang:
+            # the watchdog measures real time: give the call one more chance with four times the limit before calling it a hang
+            ctx.count("oracle_watchdog_retries")
+            d = L.watched(lambda: relativedelta(a, b), WATCHDOG_S * 4)
     except L.Hang:
         ctx.case((case["a"], case["b"]), nontrivial=False); ctx.count("oracle_hang")
-        ctx.violation("relativedelta(a, b) did not return within %.0f s (the overshoot loop does not terminate?)" % WATCHDOG_S,
+        ctx.violation("relativedelta(a, b) did not return within %.0f s, nor within %.0f s when repeated (the overshoot loop does not terminate?)" % (WATCHDOG_S, WATCHDOG_S * 4),
                       dict(case, law="terminates"))
         return
     except TypeError:
@@ -305,9 +310,21 @@ def check_pair(ctx, a, b, extra=None):
         return
     ctx.case((case["a"], case["b"])); ctx.count("oracle_ok")
     if time.time() - t0 > SLOW_S:
-        ctx.count("oracle_slow_calls")
-        ctx.violation("relativedelta(a, b) took %.2f s: the overshoot loop ran far more than once" % (time.time() - t0),
-                      dict(case, law="terminates"))
+        # a wall-clock reading: the process may simply have been descheduled.  Repeat the call three times and judge by the
+        # smallest CPU time; only a call that is slow every time is the implementation's doing.
+        ctx.count("oracle_slow_wallclock_readings")
+        cpu = []
+        for _ in range(3):
+            c0 = time.process_time()
+            try:
+                L.watched(lambda: relativedelta(a, b), WATCHDOG_S * 4)
+            except Exception:
+                pass
+            cpu.append(time.process_time() - c0)
+        if min(cpu) > SLOW_S:
+            ctx.count("oracle_slow_calls")
+            ctx.violation("relativedelta(a, b) took %.2f s of CPU time (smallest of three repetitions): the overshoot loop ran far more than once" % min(cpu),
+                          dict(case, law="terminates"))
     # inverse law
     try:
         back = b + d
